@@ -29,7 +29,14 @@ import vlib
 
 THEOREMS = ["C03_symbol_map_total_partial", "C03_unguarded_range_query_panics", "C03_self_parent_diverges_v0",
             "C03_diamond_exponential_v0", "C03_nonvacuous",
-            "C03_panic_sites_inventoried", "C03_indexer_ids_valid_core", "C03_symbol_map_total_core"]
+            "C03_panic_sites_inventoried", "C03_indexer_ids_valid_core", "C03_symbol_map_total_core",
+            "C03_source_recursion_total", "C03_source_recursion_total_core"]
+INDEXER_THEOREMS = ["C03_indexer_total_core", "C03_index_stmt_total", "C03_analyze_total", "C03_analyze_nonvacuous"]
+INDEXER_TRANSLATORS = ["t_tokens", "t_lextables", "t_unicode", "t_grammar", "t_grammarcert", "t_foldkinds", "t_ast"]
+INDEXER_TRUSTED = ("props/C03Indexer.v (group bridge; design/notes-bridge.md): group scope's indexer model Indexer.v sets s_bad at every modelled "
+                   "panic / fuel exhaustion and never does (all Core workspaces); Pipeline.analyze returns (C02 + C16 + bridge + indexer); together "
+                   "with C03_symbol_map_total_core the Core part of 'the analysis returns' is proved for the MODELS; Indexer.v = index.rs is the "
+                   "checked state equality of checks/C06.py (bridge_to_indexer_model)")
 TRUSTED = [
     "Coq 8.16.1 kernel; vm_compute only in the closed Examples / witnesses",
     "PARTIAL: proved for the symbol-map layer at op level (symbol_map.rs, symbol_map/record.rs recursion, goto_definition.rs, references.rs, "
@@ -238,7 +245,10 @@ def corpus_inputs(ctx):
 
 def run(ctx):
     bindir = vlib.build_harness(True, bins=["symdump"])
-    fails = vlib.proof_step(ctx, "TG.Props.C03", THEOREMS, ["props/C03.vo"], TRUSTED, translators=["t_panicsites"])
+    fails = vlib.proof_step(ctx, "TG.Props.C03", THEOREMS, ["props/C03.vo"], TRUSTED, translators=["t_panicsites", L.SOURCE_TRANSLATOR] + INDEXER_TRANSLATORS)
+    L.source_tie(ctx, fails)
+    # group bridge: the indexer model never reaches a modelled panic / fuel exhaustion; the model pipeline returns
+    L.extra_props(ctx, fails, "TG.Props.C03Indexer", INDEXER_THEOREMS, "props/C03Indexer.vo", INDEXER_TRUSTED)
     try:
         gen = open(vlib.COQ + "/gen/GenPanicSites.v").read()
         ctx.cov["panic_sites_inventoried"] = gen.count("%nat)")
